@@ -1085,15 +1085,26 @@ def replay(path):
     """./check C16 --replay <file>: re-run and re-judge the cases of a replay file."""
     import shutil
 
+    from checks.c17 import gen_layouts
     from harness.core import Ctx
 
     with open(path) as fh:
         data = json.load(fh)
     cases = [v["replay"] for v in data["cases"] if v.get("replay")]
-    attach_source_tables(cases)
     ctx = Ctx(PROP, "replay", 0)
-    items = [record_case(c) for c in cases]
-    failed, _ = process(ctx, cases, items)
+    LAYOUTS[:] = gen_layouts(ctx)
+    plain = [c for c in cases if "hist" not in c]
+    hist = {}
+    for c in cases:
+        if "hist" in c:
+            hist.setdefault(c["hist_id"], {"id": c["hist_id"], "root": c["root"], "hist": c["hist"], "prop": PROP})
+    failed = {}
+    if plain:
+        attach_source_tables(plain)
+        failed.update(process(ctx, plain, [record_case(c) for c in plain])[0])
+    if hist:
+        hc = list(hist.values())
+        failed.update(process_hist(ctx, hc, [record_hist(c) for c in hc])[0])
     for rid, cl in failed.items():
         print("REPLAY %s: failed %s" % (rid, sorted(cl)))
     shutil.rmtree(ctx.work, ignore_errors=True)
